@@ -100,6 +100,8 @@ Proof.
       constructor; cbn [set_cache set_stages gen flog segs seg mem stages segstages wl wstk map]; try assumption; reflexivity.
   - exact H.
   - exact H.
+  - cbn [fst]. unfold store_step. destruct (inflight s); [|exact H]. destruct (flushing s) as [[g fb]|]; [|exact H].
+    destruct (nth_error fb (N.to_nat i)) as [[k v]|]; [|exact H]. eapply oinv_frame; [exact H|..]; reflexivity.
 Qed.
 
 Lemma oinv_run P ops : oinv (run P ops) (wrun ops).
